@@ -56,7 +56,7 @@ def gen_history(rng: Rng, world: dict) -> list[dict]:
             continue
         if kind == "lint":
             subset = rng.sample(rels, rng.randint(1, min(4, len(rels)))) if rng.chance(0.7) else ["."]
-            op = {"op": "lint", "paths": sorted(subset), "processes": rng.choice([1, 1, 2, 3])}
+            op = {"op": "lint", "paths": sorted(subset), "processes": rng.choice([1, 1, 2, 3]), "shared_linter": rng.chance(0.5)}
         elif kind == "cli_lint":
             subset = rng.sample(rels, rng.randint(1, min(3, len(rels)))) if rng.chance(0.6) else ["."]
             op = {"op": "cli_lint", "paths": sorted(subset), "format": rng.choice(FORMATS), "processes": rng.choice([1, 1, 2])}
@@ -83,7 +83,8 @@ def gen_history(rng: Rng, world: dict) -> list[dict]:
 def execute(node: Any, op: dict, world: dict) -> dict:
     k = op["op"]
     if k == "lint":
-        return node.call("lint_paths", paths=op["paths"], processes=op["processes"])
+        return node.call("lint_paths", paths=op["paths"], processes=op["processes"],
+                         linter_handle="linter:shared" if op.get("shared_linter") else None)
     if k == "cli_lint":
         return node.call("cli", argv=["lint"] + op["paths"] + ["--format", op["format"], "-p", str(op["processes"])])
     if k == "api_lint":
@@ -290,6 +291,24 @@ def run_one(ctx: Any, seed: int, tier: str, replay: Optional[dict] = None) -> di
                     sig = "F5:LT07-reports-hash-order-dependent-cte-bracket"
                 add("repeatable-fresh", sig, "op #%d %s after history %s differs from the same op in a fresh process (hash seeds %d vs %d): %s" % (
                     opi, op, prefix[-6:], hs_h, hs_f, first_diff(c, fc)))
+            # ---- repeatable: one file of a multi-file lint vs the same file linted alone, fresh ----
+            if k == "lint" and "records" in out and len(out["records"]) > 1:
+                recs = sorted(out["records"], key=lambda r_: r_["filepath"])
+                pickf = recs[(seed + opi) % len(recs)]
+                akey = "alone:" + pickf["filepath"]
+                if akey not in fresh_cache:
+                    fn = zf.node({"name": "a%d" % opi, "root": root, "cwd": cwd, "seed": seed + 2000 + opi, "knobs": {"journal_reads": False, "listing": "sorted"}})
+                    try:
+                        ao = fn.call("lint_paths", paths=[pickf["filepath"]], processes=1)
+                    finally:
+                        fn.close()
+                    fresh_cache[akey] = [r_["violations"] for r_ in ao.get("records", []) if r_["filepath"] == pickf["filepath"]]
+                    probes["fresh_single_file_lints"] += 1
+                alone = fresh_cache[akey]
+                if alone and alone[0] != pickf["violations"]:
+                    add("repeatable-alone", "C32:file-among-others-vs-alone", "op #%d %s: violations of %s inside this multi-file lint differ from the same file linted alone in a fresh process: %s" % (
+                        opi, op, pickf["filepath"], first_diff(pickf["violations"], alone[0])))
+                probes["file_among_others_vs_alone_compared"] += 1
             # ---- repeatable: vs earlier executions in the history ----
             for (pi, pc) in hist_results.get(opkey, []):
                 if pc != c:
